@@ -67,6 +67,11 @@ Check (C03_int_range_flagged :
   length (check_operation_document w_schema_0 w_doc_17) = 2
   /\ parse_i32 (s "2147483647") = true /\ parse_i32 (s "-2147483648") = true
   /\ parse_i32 (s "2147483648") = false /\ parse_i32 (s "-2147483649") = false /\ parse_i32 (s "-") = false).
+Check (C03_fields_can_merge_not_checked :
+  check_operation_document w_schema_0 w_doc_18 = [] /\ spec_valid w_schema_0 w_doc_18 = true
+  /\ fields_can_merge_ok w_schema_0 w_doc_18 = false
+  /\ check_operation_document w_schema_0 w_doc_19 = [] /\ fields_can_merge_ok w_schema_0 w_doc_19 = false
+  /\ fields_can_merge_ok w_schema_0 w_doc_14 = true).
 Check (C03_custom_scalar_variable_refuted :
   exists S D, check_operation_document S D = [] /\ rule_ok S D R_vars_defined = false).
 Check (C03_duplicate_argument_refuted :
@@ -95,5 +100,6 @@ Print Assumptions C03_unspread_fragment_refuted.
 Print Assumptions C03_same_interface_now_flagged.
 Print Assumptions C03_int_range.
 Print Assumptions C03_int_range_flagged.
+Print Assumptions C03_fields_can_merge_not_checked.
 Print Assumptions C03_custom_scalar_variable_refuted.
 Print Assumptions C03_duplicate_argument_refuted.
